@@ -183,6 +183,10 @@ def run_stage(pid, stage, tier, seed, logdir):
             inp = Path(str(pp) + ".input")
             rec = {"shard": shard, "case": case, "rc": rc, "stderr": stderr, "variant": variant, "worker": worker,
                    "input_hex": inp.read_bytes().hex() if inp.exists() and inp.stat().st_size < (1 << 20) else None}
+            if rc == 3 and case is None and variant.startswith("miri"):
+                # watchdog fired before the interpreter got through the first case of this process
+                slow.append({"case": None, "seconds": None, "unconfirmed": True, "skipped": "miri too slow"})
+                continue
             if rc == 3 and case is not None and variant.startswith("miri"):
                 # the interpreter is ~10^4 times slower: a case over budget is skipped (hangs are C01's
                 # business, decided on native builds), the shard goes on with its next case
